@@ -41,6 +41,17 @@ CHECKS = {
             "1..65536, the converse direction on arbitrary headers, and all out-of-range rejections.",
             "Trusts the CCSDS layout as stated in the property; end-of-stream behaviour of the framer is C10's subject.",
             "DESIGN.md 3/C13"),
+    "C20": ("exploration",
+            "Hypothesis-generated values/raw values/packets + enumerated boundary grid; differential oracle against the "
+            "plain built-in over ~60 operations per class, round trips through copy/deepcopy/pickle/pipe",
+            "Each of the five value classes is compared with its plain built-in over a fixed list of ~60 operations "
+            "(comparison, hashing, ordering, formatting, arithmetic, sequence protocol) for boundary and random values "
+            "with every kind of raw value (incl. all falsy ones), and values, decoded fields and whole packets are put "
+            "through copy, deepcopy, pickle protocols 0-5 and a multiprocessing pipe. Sampled, with the boundary grid "
+            "enumerated.",
+            "The boolean class is int-backed by design: its bit operations are compared by value (0 == False); "
+            "serialisers special-casing the exact type bool are out of scope.",
+            "DESIGN.md 3/C20"),
 }
 
 PENDING_REASON = "check not built yet in this round (planned, see DESIGN.md section 3); nothing is claimed for it"
